@@ -77,7 +77,33 @@ pub fn check_program(ctx: &mut Ctx, start: &Pos, ops: &[Op]) -> Result<(), Viola
             return Ok(());
         }
     };
-    let mut g = Game::new_with_board(b0);
+    // every way of creating a game (chosen by the start position's fingerprint)
+    #[allow(deprecated)]
+    let mut g = match fp(start) % 4 {
+        0 => Game::new_with_board(b0),
+        1 => match Game::from_str(&start.fen()) {
+            Ok(g) => g,
+            Err(_) => {
+                ctx.reject(); // acceptance of valid positions is C07's statement
+                return Ok(());
+            }
+        },
+        2 => match Game::new_from_fen(&start.fen()) {
+            Some(g) => g,
+            None => {
+                ctx.reject();
+                return Ok(());
+            }
+        },
+        _ => {
+            if *start == Pos::startpos() {
+                ctx.class("construction:Game::new()");
+                Game::new()
+            } else {
+                Game::new_with_board(b0)
+            }
+        }
+    };
     let mut m = GameModel::new(start);
     let mut replayed = b0;
     compare(ctx, &g, &m, &replayed, "construction", &case)?;
